@@ -1437,6 +1437,9 @@ class Context:
         if len(targets) > 1:
             pendants = set(targets) & set(self._get_end_targets(plugins))
             final_plugin = tuple(pendants - set(loaders))[:1]
+            if not final_plugin:
+                # Nothing has to be computed: everything is loaded, subscribe to one of the loaders
+                final_plugin = tuple(targets)[:1]
             self.log.warning(
                 "Multiple targets detected! This is only suitable for mass "
                 f"producing dataypes since only {final_plugin} will be "
@@ -1701,11 +1704,12 @@ class Context:
             elif not allow_multiple or processor is strax.SingleThreadProcessor:
                 raise RuntimeError("Cannot automerge different data kinds!")
             elif self.context_config["timeout"] > 7200 or (
-                self.context_config["allow_lazy"] and not self.context_config["allow_multiprocess"]
+                self.context_config["allow_lazy"] and max_workers in [None, 1]
             ):
                 # For allow_multiple we don't want allow this when in lazy mode
-                # with long timeouts (lazy-mode is disabled if multiprocessing
-                # so if that is activated, we can also continue)
+                # with long timeouts. The processor works in lazy mode whenever
+                # there is no pool of workers (whether or not multiprocessing is allowed):
+                # then nothing would ever ask for the targets that are not the final one.
                 raise RuntimeError(f"Cannot allow_multiple in lazy mode or with long timeouts.")
 
         components = self.get_components(
